@@ -222,9 +222,26 @@ def impl_effects(steps, sess_alive_views):
     return out
 
 
+def corpus_cases(kind):
+    """corpus/C17/*.txt: harness lines of minimized regression scenarios (run first)"""
+    import glob
+    out = []
+    for p in sorted(glob.glob(os.path.join(ROOT, "corpus", "C17", "*.txt"))):
+        for line in open(p):
+            line = line.strip()
+            if not line or line.startswith("#"):
+                continue
+            w = line.split(" ", 3)
+            if w[0] == kind == "live":
+                out.append((w[1] == "server", int(w[2]), [o.strip() for o in w[3].split(";")]))
+            elif w[0] == kind == "unit":
+                out.append((w[1], w[2], [o.strip() for o in w[3].split(";")]))
+    return out
+
+
 def run_gate(chk, build, factor):
     quick = chk.tier == "quick"
-    cases = gen_live(chk, (1500 if quick else 20000) * factor)
+    cases = corpus_cases("live") + gen_live(chk, (1500 if quick else 20000) * factor)
     lines = [live_line(c) for c in cases]
     impl = run_harness(build, "eng_gate", lines, shards=8)
     parsed = [parse_term(x) for x in impl]
@@ -352,7 +369,7 @@ def gen_unit(chk, n):
 
 def run_units(chk, build, factor):
     quick = chk.tier == "quick"
-    cases = gen_unit(chk, (1500 if quick else 20000) * factor)
+    cases = corpus_cases("unit") + gen_unit(chk, (1500 if quick else 20000) * factor)
     lines = [f"unit {k} {adv} " + " ; ".join(ops) for k, adv, ops in cases]
     impl = run_harness(build, "eng_gate", lines, shards=8)
     parsed = [parse_term(x) for x in impl]
@@ -373,9 +390,15 @@ def run_units(chk, build, factor):
             msgs.append(f"({show_term(s[0])}, {env})")
         exprs_model.append(f"run_unit dg_sym {cfg} {st0} [" + "; ".join(msgs) + "]")
         effs = impl_effects([(s[1], ("tuple", "true", "true", "true"), s[3], s[4], s[5], s[6], [], s[8]) for s in steps], None)
+        # ground truth for the oracle (never the implementation's own advertised_local_pids): the set the
+        # harness put into the constructed state plus the pids the session put on the wire in Spawn frames;
+        # remotable = the harness' remotable probe only
+        adv_truth = set(adv0)
         for st, eff in zip(steps, effs):
-            advb = st[7][1]
-            obs.append(f"({st[2][1]}, [{'; '.join(map(str, advb))}], [{rpid}], [{'; '.join(eff)}])")
+            obs.append(f"({st[2][1]}, [{'; '.join(map(str, sorted(adv_truth)))}], [{rpid}], [{'; '.join(eff)}])")
+            for f in st[3]:
+                if head(f) == "ESendControl" and head(f[1]) == "KSpawn":
+                    adv_truth.update(a[1] for a in f[1][1])
         exprs_oracle.append(f"check_C17 [{'; '.join(obs)}]")
     res = coq_eval("C17unit", IMPORTS, exprs_model + exprs_oracle, shards=min(NCPU, 12))
     n = len(cases)
